@@ -50,8 +50,9 @@ impl ThickSegment {
     pub fn edges_bounding_box(&self) -> Rectangle {
         let (right, left) = self.edges();
 
+        // Only the right edge is drawn for skeleton segments, see `intersection`.
         if self.is_skeleton() {
-            return left.bounding_box();
+            return right.bounding_box();
         }
 
         Rectangle::with_corners(
